@@ -563,9 +563,42 @@ func registerIntrinsics(in *Interp) {
 		}
 		return nil
 	}
+	for _, n := range []string{"(*sync.Mutex).Lock", "(*sync.RWMutex).Lock", "(*sync.RWMutex).RLock"} {
+		I[n] = func(fr *Frame, g *Term, args []Value, site ssa.Instruction, fn *ssa.Function) []Value {
+			in.lockDepth++
+			return nil
+		}
+	}
+	for _, n := range []string{"(*sync.Mutex).Unlock", "(*sync.RWMutex).Unlock", "(*sync.RWMutex).RUnlock"} {
+		I[n] = func(fr *Frame, g *Term, args []Value, site ssa.Instruction, fn *ssa.Function) []Value {
+			if in.lockDepth > 0 {
+				in.lockDepth--
+			}
+			return nil
+		}
+	}
+	// vLocksHeld: does the running code hold a mutex (another goroutine's call cannot be inserted atomically then)
+	I["#vLocksHeld"] = func(fr *Frame, g *Term, args []Value, site ssa.Instruction, fn *ssa.Function) []Value {
+		if in.lockDepth > 0 {
+			return []Value{tTrue}
+		}
+		return []Value{tFalse}
+	}
+	// vJoin(f): natively f runs on a fresh goroutine that is joined; symbolically it is called in place
+	I["#vJoin"] = func(fr *Frame, g *Term, args []Value, site ssa.Instruction, fn *ssa.Function) []Value {
+		fv, ok := args[0].(*FuncVal)
+		if !ok {
+			in.unsupported(g, "vJoin needs a function value")
+			return nil
+		}
+		saved := in.lockDepth
+		in.lockDepth = 0
+		in.callFuncVal(fr, g, fv, nil, nil, site)
+		in.lockDepth = saved
+		return nil
+	}
 	for _, n := range []string{
-		"(*sync.Mutex).Lock", "(*sync.Mutex).Unlock", "(*sync.RWMutex).Lock", "(*sync.RWMutex).Unlock",
-		"(*sync.RWMutex).RLock", "(*sync.RWMutex).RUnlock", "runtime.Gosched", "time.Sleep",
+		"runtime.Gosched", "time.Sleep",
 		"(*sync.WaitGroup).Add", "(*sync.WaitGroup).Done", "(*sync.WaitGroup).Wait", "runtime.KeepAlive",
 		"runtime.SetFinalizer",
 	} {
